@@ -224,7 +224,7 @@ def run(ctx):
                 tasks.append(dict(N=N, m=m, box=bx, a=a, b=min(n, a + step)))
     # a unit box at 1e10 and integer-typed bounds (Python ints with an odd sum), small configurations
     for (N, m) in [c for c in curve.small_configs(8 if not th else 10)]:
-        for bx in ("B4", "Z", "E", "D", "S", "F", "T", "U"):
+        for bx in ("B4", "Z", "Zh", "E", "D", "S", "F", "T", "U"):
             tasks.append(dict(N=N, m=m, box=bx, a=0, b=2 ** (N * m)))
     # the same exhaustive cell enumeration with the box configured through SetBounds (every ordered pair of boxes)
     for (N, m) in [c for c in curve.small_configs(8 if not th else 10)]:
